@@ -22,6 +22,7 @@ type Point struct {
 	N          int
 	Preemptive bool
 	Chosen     int
+	Key        uint64 // happens-before state key at this point
 }
 
 // Exec is the per-execution context handed to the scenario body.
@@ -34,6 +35,20 @@ type Exec struct {
 	Sched    *vrt.Sched
 	notes    []string
 	conflict bool
+	// Aux carries scenario-private ghost state from Body to the hooks.
+	Aux any
+	// OracleSkipped counts oracle reads that could not be made (lock held at quiescence).
+	OracleSkipped int
+}
+
+// FailOnce records a violation unless the same signature was already recorded in this execution.
+func (x *Exec) FailOnce(sig, format string, a ...any) {
+	for _, f := range x.fails {
+		if f.Sig == sig {
+			return
+		}
+	}
+	x.Fail(sig, format, a...)
 }
 
 // Failure is one oracle violation in one execution.
@@ -55,7 +70,11 @@ func (x *Exec) Choose(kind vrt.Kind, n int, preemptive bool) int {
 			c = 0
 		}
 	}
-	x.points = append(x.points, Point{Kind: kind, N: n, Preemptive: preemptive, Chosen: c})
+	var key uint64
+	if vrt.S != nil {
+		key = vrt.S.CurKey()
+	}
+	x.points = append(x.points, Point{Kind: kind, N: n, Preemptive: preemptive, Chosen: c, Key: key})
 	return c
 }
 
@@ -99,6 +118,7 @@ type Options struct {
 	Deadline      time.Time
 	Shard, NShard int
 	StopAtFirst   bool // stop exploring a scenario after the first violating execution per signature set
+	NoCache       bool // disable happens-before state caching
 }
 
 // Violation is a violating execution, replayable from Choices.
@@ -117,25 +137,28 @@ type Violation struct {
 
 // Stats of one exploration.
 type Stats struct {
-	Scenario     string         `json:"scenario"`
-	Params       string         `json:"params,omitempty"`
-	Executions   int64          `json:"executions"`
-	Steps        int64          `json:"steps"`
-	Outcomes     int            `json:"distinct_outcomes"`
-	Nontrivial   int64          `json:"nontrivial_executions"`
-	MaxPoints    int            `json:"max_choice_points"`
-	Capped       int64          `json:"capped_executions"`
-	Stuck        int64          `json:"stuck_executions"`
-	Exhaustive   bool           `json:"exhaustive_within_bounds"`
-	PreemptBound int            `json:"preemption_bound"`
-	DevBound     int            `json:"deviation_bound"`
-	Violations   []*Violation   `json:"-"`
-	SigCounts    map[string]int `json:"violation_signatures,omitempty"`
-	Sample       *Violation     `json:"-"` // one passing execution written out
-	WallS        float64        `json:"wall_s"`
-	outcomes     map[uint64]struct{}
-	NontrivOut   int `json:"distinct_nontrivial_outcomes"`
-	ntOutcomes   map[uint64]struct{}
+	Scenario      string         `json:"scenario"`
+	Params        string         `json:"params,omitempty"`
+	Executions    int64          `json:"executions"`
+	Steps         int64          `json:"steps"`
+	Outcomes      int            `json:"distinct_outcomes"`
+	Nontrivial    int64          `json:"nontrivial_executions"`
+	MaxPoints     int            `json:"max_choice_points"`
+	Capped        int64          `json:"capped_executions"`
+	Stuck         int64          `json:"stuck_executions"`
+	Exhaustive    bool           `json:"exhaustive_within_bounds"`
+	PreemptBound  int            `json:"preemption_bound"`
+	DevBound      int            `json:"deviation_bound"`
+	Violations    []*Violation   `json:"-"`
+	SigCounts     map[string]int `json:"violation_signatures,omitempty"`
+	Sample        *Violation     `json:"-"` // one passing execution written out
+	WallS         float64        `json:"wall_s"`
+	outcomes      map[uint64]struct{}
+	NontrivOut    int   `json:"distinct_nontrivial_outcomes"`
+	CacheStates   int   `json:"hb_states"`
+	CachePrunes   int64 `json:"hb_prunes"`
+	OracleSkipped int64 `json:"oracle_skipped"`
+	ntOutcomes    map[uint64]struct{}
 }
 
 type frame struct {
@@ -182,6 +205,8 @@ func Explore(sc *Scenario, opt Options) *Stats {
 	stack := []frame{{}}
 	first := true
 	sigSeen := map[string]bool{}
+	type cost struct{ pre, dev int }
+	visited := map[uint64][]cost{}
 	for len(stack) > 0 {
 		f := stack[len(stack)-1]
 		stack = stack[:len(stack)-1]
@@ -209,6 +234,7 @@ func Explore(sc *Scenario, opt Options) *Stats {
 		if r.Stuck {
 			st.Stuck++
 		}
+		st.OracleSkipped += int64(x.OracleSkipped)
 		oh := hashStrs(x.obs)
 		st.outcomes[oh] = struct{}{}
 		if x.conflict {
@@ -235,6 +261,23 @@ func Explore(sc *Scenario, opt Options) *Stats {
 			p := x.points[i]
 			if p.N <= 1 {
 				continue
+			}
+			if !opt.NoCache {
+				// happens-before state caching: if this state was already expanded with no more cost
+				// used, everything below it (the rest of this execution included) is covered.
+				dominated := false
+				cs := visited[p.Key]
+				for _, c := range cs {
+					if c.pre <= pre && c.dev <= dev {
+						dominated = true
+						break
+					}
+				}
+				if dominated {
+					st.CachePrunes++
+					break
+				}
+				visited[p.Key] = append(cs, cost{pre, dev})
 			}
 			var cpre, cdev int
 			switch p.Kind {
@@ -272,6 +315,7 @@ func Explore(sc *Scenario, opt Options) *Stats {
 			st.Steps -= int64(r.Steps)
 		}
 	}
+	st.CacheStates = len(visited)
 	st.Outcomes = len(st.outcomes)
 	st.NontrivOut = len(st.ntOutcomes)
 	st.WallS = time.Since(start).Seconds()
